@@ -163,6 +163,19 @@ def evalRoute (kv : List (String × String)) : Option String := do
       let pag := if rt.chain.contains .isPostAsGet then 1 else 0
       pure s!"sel={sel} pag={pag} parse=1 validate=1 verify=1 nonce=1"
 
+/-- stage acctrace: `sched=` is a word over A (the deactivation) and B (the contact update); each letter is one store
+    step of that request (lookupJWK's GetAccount, UpdateAccount's read, the compare-and-swap) -/
+def evalAcctRace (kv : List (String × String)) : Option String := do
+  let sched ← (← lookup kv "sched").toList.mapM (fun ch => if ch = 'A' then some false else if ch = 'B' then some true else none)
+  let x := casRun2 (.valid, 0) ⟨.deactivate, .start⟩ ⟨.contact, .start⟩ sched
+  let res : CPc → String := fun pc => match pc with
+    | .done .ok => "200" | .done .unauthorized => "401:unauthorized" | .done .conflict => "500:serverInternal" | _ => "-"
+  let st := match x.1.1 with | .valid => "valid" | .deactivated => "deactivated" | .revoked => "revoked"
+  -- the harness then lets A run to its end, then B
+  let y := casRun2 x.1 x.2.1 x.2.2 [false, false, false, true, true, true]
+  let st2 := match y.1.1 with | .valid => "valid" | .deactivated => "deactivated" | .revoked => "revoked"
+  pure s!"{st} deact={res x.2.1.pc} contact={res x.2.2.pc} end={st2} deact={res y.2.1.pc} contact={res y.2.2.pc}"
+
 /-- version of the line protocol this driver speaks; the harness sends `v=<its version>` on every
     line. A mismatch means driver and harness come from different revisions of /verif: it is
     reported as such, never as a verdict. -/
@@ -174,6 +187,7 @@ def eval (line : String) : Option String :=
   match (fields line).head? with
   | some "req" => evalReq kv
   | some "route" => evalRoute kv
+  | some "acctrace" => evalAcctRace kv
   | _ => none
 
 end C12
